@@ -29,10 +29,18 @@ namespace alloc {
 void (*on_alloc_hook)(void *, size_t) = nullptr;
 void (*on_free_hook)(void *, size_t) = nullptr;
 
-static std::map<void *, Block> g_live;
+// (immortal: library destructors may call free() after this file's static destructors would have run)
+static std::map<void *, Block> &g_live = *new std::map<void *, Block>();
+// Blocks that were still allocated when a run ended.  They stay valid memory: a library may
+// legitimately keep a block across calls (a buffer pool, a cache) and free or reuse it in a
+// later run.  They are not "live" for this run's accounting, but freeing or reallocating
+// them is legal.  Bounded, oldest first (what a violating run leaked ends up here too).
+static std::map<void *, Block> &g_kept = *new std::map<void *, Block>();
+static uint64_t g_kept_serial = 0;
+static const size_t KEPT_MAX = 64;
 static uint64_t g_serial = 0;
 static uint64_t g_fail_at = 0;
-static CallInfo g_call;
+static CallInfo &g_call = *new CallInfo();
 static bool g_in_call = false;
 static Fill g_fill = Fill::Garbage;
 static Rng g_fill_rng(0x5eed);
@@ -42,8 +50,8 @@ static size_t g_cap = 0;
 struct SiteRec {
     SiteInfo info;
 };
-static std::map<const struct sim_site *, size_t> g_site_index;
-static std::vector<SiteRec> g_sites;
+static std::map<const struct sim_site *, size_t> &g_site_index = *new std::map<const struct sim_site *, size_t>();
+static std::vector<SiteRec> &g_sites = *new std::vector<SiteRec>();
 static bool g_sites_init = false;
 
 static const char *kind_name(int k) {
@@ -118,10 +126,20 @@ static SiteRec *site_of(const struct sim_site *s) {
 }
 
 void reset_run() {
-    // blocks still live belong to a previous run that was abandoned; they are
-    // returned to the real allocator so that runs stay independent
-    for (auto &kv : g_live) ::free(kv.first);
+    // blocks still allocated are kept valid (see g_kept); only the accounting starts afresh
+    for (auto &kv : g_live) {
+        Block b = kv.second;
+        b.serial = ++g_kept_serial;
+        g_kept[kv.first] = b;
+    }
     g_live.clear();
+    while (g_kept.size() > KEPT_MAX) {
+        auto oldest = g_kept.begin();
+        for (auto it = g_kept.begin(); it != g_kept.end(); ++it)
+            if (it->second.serial < oldest->second.serial) oldest = it;
+        ::free(oldest->first);
+        g_kept.erase(oldest);
+    }
     g_serial = 0;
     g_fail_at = 0;
     g_in_call = false;
@@ -158,11 +176,15 @@ std::vector<Block> live_since(uint64_t since) {
     std::sort(v.begin(), v.end(), [](const Block &a, const Block &b) { return a.serial < b.serial; });
     return v;
 }
-bool is_live(const void *p) { return g_live.count((void *)p) != 0; }
+bool is_live(const void *p) { return g_live.count((void *)p) != 0 || g_kept.count((void *)p) != 0; }
 size_t size_of(const void *p) {
     auto it = g_live.find((void *)p);
-    return it == g_live.end() ? 0 : it->second.size;
+    if (it != g_live.end()) return it->second.size;
+    it = g_kept.find((void *)p);
+    return it == g_kept.end() ? 0 : it->second.size;
 }
+size_t kept_count() { return g_kept.size(); }
+bool is_kept(const void *p) { return g_kept.count((void *)p) != 0; }
 
 static void fill(void *p, size_t n) {
     if (!p || n == 0) return;
@@ -241,13 +263,18 @@ static void *do_calloc(size_t a, size_t b, const struct sim_site *s) {
 static void *do_realloc(void *old, size_t n, const struct sim_site *s) {
     SiteRec *sr = site_of(s);
     size_t oldn = 0;
+    bool old_kept = false;
     if (old) {
         auto it = g_live.find(old);
         if (it == g_live.end()) {
-            g_call.bad_free = true;
-            g_call.bad_free_site = sr->info.name;
-            g_call.requests++;
-            return nullptr;
+            it = g_kept.find(old);
+            if (it == g_kept.end()) {
+                g_call.bad_free = true;
+                g_call.bad_free_site = sr->info.name;
+                g_call.requests++;
+                return nullptr;
+            }
+            old_kept = true;
         }
         oldn = it->second.size;
     }
@@ -258,7 +285,10 @@ static void *do_realloc(void *old, size_t n, const struct sim_site *s) {
     if (old) {
         memcpy(p, old, std::min(oldn, n));
         if (on_free_hook) on_free_hook(old, oldn);
-        g_live.erase(old);
+        if (old_kept)
+            g_kept.erase(old);
+        else
+            g_live.erase(old);
         ::free(old);
     }
     track(p, n, sr);
@@ -269,6 +299,13 @@ static void do_free(void *p, const struct sim_site *s) {
     if (!p) return;
     auto it = g_live.find(p);
     if (it == g_live.end()) {
+        auto kt = g_kept.find(p);
+        if (kt != g_kept.end()) { // a block kept from an earlier run: the library may free it now
+            if (on_free_hook) on_free_hook(p, kt->second.size);
+            g_kept.erase(kt);
+            ::free(p);
+            return;
+        }
         SiteRec *sr = site_of(s);
         g_call.bad_free = true;
         g_call.bad_free_site = sr->info.name;
